@@ -55,7 +55,8 @@ def gen_program(rng, profile, index=None):
     n = rng.randint(0, 5)
     aws = [{'kind': rng.choice(KINDS), 'out': rng.choice(OUTCOMES) if rng.random() < 0.7 else 'return',
             'delay': rng.choice(DELAYS)} for _ in range(n)]
-    return {'world': 'gather', 'aws': aws, 'only': rng.choice(list(ONLY)), 'mode': rng.choice(['gather', 'first'])}
+    return {'world': 'gather', 'aws': aws, 'only': rng.choice(list(ONLY)), 'mode': rng.choice(['gather', 'first']),
+            'form': rng.choice(['list', 'tuple', 'generator', 'map'])}
 
 
 def enum_size(n):
@@ -124,6 +125,13 @@ class GatherWorld:
         p = self.prog
         specs = p['aws']
         aws = [self.make(loop, i, s) for i, s in enumerate(specs)]
+        form = p.get('form', ('list', 'tuple', 'generator', 'map')[len(specs) % 4] if 'form' not in p else 'list')
+        if form == 'tuple':
+            aws = tuple(aws)
+        elif form == 'generator':
+            aws = (a for a in aws)              # Iterable[Awaitable]: a one-shot iterable is legal
+        elif form == 'map':
+            aws = map(lambda a: a, aws)
         only = ONLY[p['only']]
         kw = {} if only is None else {'only': only}
         filt = BaseException if only is None else only
